@@ -32,14 +32,16 @@ func checkC13(c *Ctx) {
 	r.NotDecided = []string{"encoding/gob's own behaviour", "round-trip equality of values", "partial import on a broken stream"}
 	c.withAlias(map[string]string{"R10.5": "R13.5"}, func() { c.c10TsInverse() })
 	// R13.6: what is dumped is what the cache holds and what gob was told about: stored keys are private copies (a dump must
-	// not carry keys the caller rewrote afterwards) and GobRegister registers the very value it was given
+	// not carry keys the caller rewrote afterwards) and GobRegister registers the very value it was given — every distinct type:
+	// the already-registered test is keyed by the reflect.Type itself (a coarser key, e.g. its printed name, silently skips a
+	// second type that prints the same, and Dump then fails on its values)
 	c.borrow("C09", func() {
 		for _, b := range backends {
 			c.c09WriteCopies(b)
 		}
 	}, func(o *coreObl) (string, bool) { return "R13.6", o.Rule == "R09.2" })
 	c.borrow("C14", func() { c.c14Register() }, func(o *coreObl) (string, bool) {
-		return "R13.6", o.Rule == "R14.3" && o.Construct == "GobRegister" && (o.Status == "discharged" || strings.HasPrefix(o.What, "not-registered-with-gob"))
+		return "R13.6", o.Rule == "R14.3" && o.Construct == "GobRegister" && (o.Status == "discharged" || strings.HasPrefix(o.What, "not-registered-with-gob") || strings.HasPrefix(o.What, "no-dedupe-test") || strings.HasPrefix(o.What, "dedupe-untested"))
 	})
 	for _, b := range backends {
 		// R13.1 -------------------------------------------------------------------------------
